@@ -16,6 +16,8 @@ CHECKS = {
          "For tables produced by the real ingest pipeline (symbolic cells, incl. the 255/256/257-row boundary): row count, block fill, strictly increasing keys, block index maps hash(key)->(hash(row),position) and nothing else, index-from-bytes == index-from-rows, table index = first key per block. Receiver-produced tables are compared byte-for-byte with ingest-produced ones under C07. doctor diagnosis/resolve are outside.", "4 C03"),
  "C04": ("model_checking", "bounded symbolic execution of diff.DiffTables on two symbolic tables vs a set-difference oracle; offset arithmetic for all 2^24 x 255 offsets by SMT",
          "Real DiffTables (differ goroutine, window search, block-index lookup) on synthetic small-block tables with symbolic 1-byte keys (strictly increasing per table) and symbolic row sums, 0-2 (quick) / 0-3 (thorough) blocks per side: events = exactly added/removed/modified, no key twice, offsets address the right rows; RowToBlockAndOffset inverse for every offset. CLI rendering is outside.", "4 C04"),
+ "C05": ("model_checking", "bounded symbolic execution of CompareColumns + RowResolver.Resolve on symbolic cells over concrete column layouts, and of the whole Merger/RowCollector pipeline on symbolic non-key cells; oracle = cell-wise three-way rule by column name",
+         "Resolver kernel: 2-3 layers, layouts {same, +col, -col, reordered, renamed, key not first}, every presence pattern, 1-byte symbolic cells: one distinct change wins, none -> base, different changes / remove-vs-modify -> flagged, never a silent pick. Pipeline: base of 2-3 rows and 2 branches with disjoint edits / one-sided removals / an added row, key column first or not: result = base with each branch's edits under its own column names (hashes in ids mode). Interactive resolver and CLI are outside.", "4 C05"),
  "C06": ("model_checking", "bounded symbolic execution of encoders/decoders; the packfile length header for all 2^64 lengths via a measured float mini-domain + SMT",
          "Packfile type+length header round-trips for every object length u in [1,2^64) and type 1..3 (u=0 is a known finding). Other codecs: see obligations in the evidence; lengths beyond the stated bounds (64 KiB cells) are only covered where the obligation says so.", "4 C06"),
  "C07": ("model_checking", "bounded symbolic execution of ObjectSender -> packfile -> ObjectReceiver with the packfile size limit as one 64-bit SMT variable",
@@ -39,7 +41,6 @@ CHECKS = {
 }
 
 NOT_APPLICABLE = {
- "C05": "not yet built in this revision (planned: RowResolver/CompareColumns kernel per DESIGN section 4)",
  "C09": "end-to-end fetch/push needs HTTP+gzip+JSON and a server that is not in this repository; the mechanisms are decided under C07, C08, C10, C11 (DESIGN section 5)",
  "C10": "not yet built in this revision (planned: saveFetchedRefs / identifyUpdates gates per DESIGN section 4)",
  "C13": "not yet built in this revision (planned: symbolic crash index over ingest / receive / prune per DESIGN section 4)",
